@@ -135,12 +135,13 @@ def gen_file(rng):
     slines = []
     for c in CUTS:
         if rng.random() < 0.7:
+            zero = rng.random() < 0.12          # a cut-off of exactly zero switches a term off
             if rng.random() < 0.5:
-                v = round(rng.uniform(1, 30), 3)
+                v = 0.0 if zero else round(rng.uniform(1, 30), 3)
                 scal[c] = v
                 slines.append("%s %r" % (c, v))
             else:
-                v = round(rng.uniform(1, 900), 3)
+                v = 0.0 if zero else round(rng.uniform(1, 900), 3)
                 scal[c] = v ** 0.5
                 slines.append("%s_squared %r" % (c, v))
     for k, v in (("Nmin", rng.randrange(100, 400)), ("Nmax", rng.randrange(401, 900)),
